@@ -11,7 +11,9 @@ DEST=$V/seeded/${PID}${N:+_$N}
 cd $WT || exit 2
 git reset -q --hard && git clean -fdq -e target -e .kverif_harness
 run() { CARGO_NET_OFFLINE=true cargo test --workspace --offline --no-fail-fast 2>&1; }
-summ() { grep -E "^test result" "$1" | awk '{p+=$4; f+=$6} END {print p" passed "f" failed"}'; }
+# "N passed M failed"; a test binary that aborts (stack overflow, SIGABRT) prints no result line: cargo's
+# "error: test failed" line is counted as one failure
+summ() { a=$(grep -c "^error: test failed" "$1"); grep -E "^test result" "$1" | awk -v a="$a" '{p+=$4; f+=$6} END {if (f==0 && a>0) f=a; print p" passed "f" failed"}'; }
 git apply "$OUT/demo$N.diff" || { echo "demo does not apply"; exit 2; }
 run > /tmp/seedv_${PID}${N}_a.log
 A=$(summ /tmp/seedv_${PID}${N}_a.log)
